@@ -40,11 +40,17 @@ Accept(x) ==
           /\ PopAcceptOK(par, x, after)
           /\ pop' = ToBag(after)
   /\ evals' = evals + 1 /\ gen' = 1 + ((evals' - N) \div N) /\ UNCHANGED <<viol, worse, size0>>
-Next == FirstGen \/ Step \/ (\E x \in Vec : Accept(x))
+\* OMOPSO / SMPSO: the whole swarm is copied, moved and re-evaluated every generation; generation tags 0..G (gen counts the recorded ones)
+SwarmStep ==
+  /\ Mode = "swarm" /\ gen >= 1 /\ gen <= G
+  /\ \E off \in [1..N -> Vec] : pop' = ToBag(off)
+  /\ gen' = gen + 1 /\ evals' = evals + N /\ UNCHANGED <<viol, worse, size0>>
+Next == FirstGen \/ Step \/ SwarmStep \/ (\E x \in Vec : Accept(x))
 Spec == Init /\ [][Next]_vars
 Budget   == Mode = "nsga2" => evals = N * gen                       \* N successful evaluations per recorded generation
 Size     == gen >= 1 => BagCardinality(pop) = N                     \* every generation / the working population keeps N members
 Elitism  == ~viol                                                   \* no survivor dominated by a dropped member of the previous generation
 Monotone == ~worse                                                  \* single objective: the best cost never gets worse
 BudgetEps == Mode = "epsmoea" => evals <= N * (G + 1)
+BudgetSwarm == Mode = "swarm" => (evals = N * gen /\ gen <= G + 1)    \* N * (G + 1) evaluations for generations 0..G
 =============================================================================
